@@ -160,14 +160,25 @@ func main() {
 	}
 
 	var b strings.Builder
-	b.WriteString("/- GENERATED by /verif/extract/c07consts from edge.go, alert/topics.go and node.go — do not edit. -/\n")
+	b.WriteString("/- GENERATED by /verif/extract/c07consts from edge.go and alert/topics.go — do not edit. -/\n")
 	b.WriteString("namespace Kap.C07.Gen\n\n")
 	fmt.Fprintf(&b, "/-- `defaultEdgeBufferSize` (edge.go), the size newEdge gives every channel edge. -/\ndef edgeCap : Nat := %s\n\n", edgeCap)
 	fmt.Fprintf(&b, "/-- `alert.DefaultEventBufferSize`: the queue of a bufHandler created with a size below the minimum. -/\ndef handlerQueue : Nat := %s\n\n", defQ)
 	fmt.Fprintf(&b, "/-- `alert.MinimumEventBufferSize`. -/\ndef handlerQueueMin : Nat := %s\n\n", minQ)
-	fmt.Fprintf(&b, "/-- node.closeChildEdges is `for _, child := range n.outs { child.Close() }`: every child edge is closed, whatever an earlier Close returned. -/\ndef closeChildEdgesVisitsAll : Bool := %s\n\n", closeAll)
-	fmt.Fprintf(&b, "/-- node.abortParentEdges is `for _, in := range n.ins { in.Abort() }`. -/\ndef abortParentEdgesVisitsAll : Bool := %s\n\n", abortAll)
 	b.WriteString("end Kap.C07.Gen\n")
+	// the shapes go into a file of their own: only Props imports it, so an unrecognised shape breaks the theorem
+	// while the driver still builds and the harness can look for a failing input
+	var sh strings.Builder
+	sh.WriteString("/- GENERATED by /verif/extract/c07consts from node.go — do not edit. -/\nnamespace Kap.C07.Gen\n\n")
+	fmt.Fprintf(&sh, "/-- node.closeChildEdges is `for _, child := range n.outs { child.Close() }`, called unconditionally by the deferred exit handler of node.start: every child edge is closed, whatever an earlier Close returned. -/\ndef closeChildEdgesVisitsAll : Bool := %s\n\n", closeAll)
+	fmt.Fprintf(&sh, "/-- node.abortParentEdges is `for _, in := range n.ins { in.Abort() }`. -/\ndef abortParentEdgesVisitsAll : Bool := %s\n\nend Kap.C07.Gen\n", abortAll)
+	shOut := filepath.Join(lean, "Kap", "Gen", "C07Shape.lean")
+	if old, err := os.ReadFile(shOut); err != nil || string(old) != sh.String() {
+		if err := os.WriteFile(shOut, []byte(sh.String()), 0o644); err != nil {
+			fmt.Fprintln(os.Stderr, err)
+			os.Exit(1)
+		}
+	}
 	out := filepath.Join(lean, "Kap", "Gen", "C07.lean")
 	if err := os.MkdirAll(filepath.Dir(out), 0o755); err != nil {
 		fmt.Fprintln(os.Stderr, err)
